@@ -178,6 +178,8 @@ func (w *C11) Run(x *simkit.Ctx) {
 	work := &mState{acct: map[int]mAcct{}, stor: map[int]map[int]string{}}
 	var valSeq int64 = 1
 	dirty := false
+	var longSrv *statedb.StateDB
+	var longRoot []byte
 
 	varKey := func(k int) []byte { h := types.GetHashID(skey(k)); return h[:] }
 	acctKey := func(a int) []byte { h := types.ToAccountID(acctID(a)); return h[:] }
@@ -222,7 +224,11 @@ func (w *C11) Run(x *simkit.Ctx) {
 		if r.Chance(1, 2) {
 			ri = r.Intn(len(history))
 		}
-		return &simkit.Step{Op: "q", K: []int{kind, tgt, ri, r.Intn(2), r.Pick(3, 2, 2, 2, 2, 2, 2, 2, 2, 2, 3), r.Intn(1 << 16), r.Intn(1 << 16)}}
+		// K[7] = who answers: 0 a fresh instance opened on the store (a restart between queries), 1 one
+		// long-lived instance that answers every query since the last commit, 2 the working state itself
+		// (it may hold writes that are not committed yet: they must not leak into a proof)
+		// K[8] = 1: before the client verifies, the same server answers further queries (a multi-key request)
+		return &simkit.Step{Op: "q", K: []int{kind, tgt, ri, r.Intn(2), r.Pick(3, 2, 2, 2, 2, 2, 2, 2, 2, 2, 3), r.Intn(1 << 16), r.Intn(1 << 16), r.Pick(2, 1, 1), r.Pick(2, 1)}}
 	}
 
 	for {
@@ -301,8 +307,26 @@ func (w *C11) Run(x *simkit.Ctx) {
 				reqRoot = h.root
 				x.Probe("historical-root-query")
 			}
-			// the server is a fresh instance over the store at the current root (restart between queries)
+			// the server is a fresh instance over the store at the current root (restart between queries),
+			// a long-lived one, or the working state
 			srv := statedb.NewStateDB(store, cur.root, false)
+			srvMode, decoy := 0, false
+			if len(st.K) >= 9 {
+				srvMode, decoy = st.K[7], st.K[8] == 1
+			}
+			switch srvMode {
+			case 1:
+				if longSrv == nil || !bytes.Equal(longRoot, cur.root) {
+					longSrv, longRoot = statedb.NewStateDB(store, cur.root, false), cur.root
+				}
+				srv = longSrv
+				x.Probe("long-lived-server")
+			case 2:
+				srv = bs.StateDB
+				if dirty {
+					x.Probe("query-while-writes-pending")
+				}
+			}
 			var key, trustRoot []byte
 			var wantVal []byte // trie value the model says the key has at the trusted root (nil = absent)
 			otherVal := simkit.Key32("other", m1)
@@ -388,6 +412,19 @@ func (w *C11) Run(x *simkit.Ctx) {
 			}
 			if p == nil || x.Failed() {
 				break
+			}
+			if decoy {
+				// the rest of a multi-key request, answered by the same server before the client looks
+				// at the first proof: what was handed out must not change under the client
+				x.Probe("further-queries-before-verification")
+				for i := 0; i < 3; i++ {
+					_, _ = srv.GetAccountAndProof(acctKey((tgt+1+i+m1)%(nA+3)), reqRoot, i%2 == 0)
+					for c := 0; c < nC; c++ {
+						if sr := h.sroot[c]; len(sr) > 0 {
+							_, _ = srv.GetVarAndProof(varKey((m2+i)%(nK+3)), sr, i%2 == 1)
+						}
+					}
+				}
 			}
 			// 1. completeness: the honest proof is accepted by both verifiers
 			okRepo, pan := repoAccept(trustRoot, key, p)
